@@ -65,8 +65,15 @@ impl BisyncStateDb {
         format!("{:x}", hasher.finish())
     }
 
-    /// Get database directory (~/.cache/sy/bisync/)
+    /// Get database directory (~/.cache/sy/bisync/), creating it if necessary
     fn get_db_dir() -> Result<PathBuf> {
+        let db_dir = Self::db_dir_path()?;
+        std::fs::create_dir_all(&db_dir)?;
+        Ok(db_dir)
+    }
+
+    /// Path of the database directory (nothing is created)
+    fn db_dir_path() -> Result<PathBuf> {
         let cache_dir = if let Ok(xdg_cache) = std::env::var("XDG_CACHE_HOME") {
             PathBuf::from(xdg_cache)
         } else if let Ok(home) = std::env::var("HOME") {
@@ -77,9 +84,25 @@ impl BisyncStateDb {
             ));
         };
 
-        let db_dir = cache_dir.join("sy").join("bisync");
-        std::fs::create_dir_all(&db_dir)?;
-        Ok(db_dir)
+        Ok(cache_dir.join("sy").join("bisync"))
+    }
+
+    /// Open an existing state database without modifying anything (for dry runs).
+    /// Returns `None` when no database exists for this source/dest pair yet.
+    pub fn open_read_only(source: &Path, dest: &Path) -> Result<Option<Self>> {
+        let sync_pair_hash = Self::generate_sync_pair_hash(source, dest);
+        let db_path = Self::db_dir_path()?.join(format!("{}.db", sync_pair_hash));
+        if !db_path.exists() {
+            return Ok(None);
+        }
+        let conn = Connection::open_with_flags(
+            &db_path,
+            rusqlite::OpenFlags::SQLITE_OPEN_READ_ONLY,
+        )?;
+        Ok(Some(Self {
+            conn,
+            sync_pair_hash,
+        }))
     }
 
     /// Open or create bisync state database for source/dest pair
